@@ -375,6 +375,23 @@ theorem parameters_eq {α : Type} (d : Dict α) (hd : WellKeyed d) : parameters 
   | nil => rfl
   | cons x xs ih => simp [List.zip_cons_cons, ih]
 
+/-- a record built from a name-indexed function returns, under each field name, that function's value -/
+theorem coeff_ofList {α : Type} (z : α) (g : String → α) :
+    ∀ s ∈ PolarCoeffs.fieldNames, coeff z (PolarCoeffs.ofList z (PolarCoeffs.fieldNames.map g)) s = g s := by
+  intro s hs
+  simp only [PolarCoeffs.fieldNames, List.mem_cons, List.not_mem_nil, or_false] at hs
+  rcases hs with rfl | rfl | rfl | rfl | rfl | rfl | rfl | rfl | rfl | rfl | rfl | rfl | rfl | rfl | rfl | rfl | rfl | rfl | rfl
+    | rfl | rfl | rfl | rfl | rfl | rfl <;>
+  simp [coeff, PolarCoeffs.ofList, PolarCoeffs.fieldNames, PolarCoeffs.toList, List.lookup]
+
+/-- The record handed to the generated chi terms holds, under every symbol, the value stored in the coefficient dict under that
+symbol (for every dict reachable from the initial one): `parameters["C12"]` in the source is `_aberration_coefficients["C12"]`. -/
+theorem toCoeffs_reads_dict {α : Type} (z : α) (d : Dict α) (hd : WellKeyed d) :
+    ∀ s ∈ PolarCoeffs.fieldNames, coeff z (toCoeffs z d) s = (d.lookup s).getD z := by
+  intro s hs
+  unfold toCoeffs
+  rw [coeff_ofList z _ s hs, parameters_eq d hd]
+
 /-! ### non-vacuity -/
 example : setAttr (fun x : Int => -x) (initDict 0) "Cs" 7 = .ok (dictSet (initDict 0) "C30" 7) :=
   (aliases_address_same_coefficient (fun x : Int => -x) 0 (initDict 0) 7 ("Cs", "C30") (by decide) (by decide)).1
